@@ -143,7 +143,8 @@ func startServer(outDir string) (*server, error) {
 		return nil, err
 	}
 	s.cmd = exec.Command(exe)
-	s.cmd.Env = append(os.Environ(), "WC04_SERVER=1")
+	// two Ps: one decoding goroutine plus the collector; keeps start-up and crash dumps small
+	s.cmd.Env = append(os.Environ(), "WC04_SERVER=1", "GOMAXPROCS=2")
 	ef, err := os.Create(s.errPath)
 	if err != nil {
 		return nil, err
